@@ -66,3 +66,59 @@ def leaves(doc):
                 yield x
     elif not isinstance(doc, str):
         yield doc
+
+
+# ------------------------------------------------------------------ explicit
+# element alphabets: a descriptor is ('X',) | ('S', text) | ('L', [desc...]) |
+# ('D', {key: desc})
+X = ("X",)
+
+
+def S(t):
+    return ("S", t)
+
+
+def L(*ds):
+    return ("L", list(ds))
+
+
+def D(**kw):
+    return ("D", dict(kw))
+
+
+ALTS_QUICK = [X, S(""), S("ab\ncd\n"), L(), L(X), L(X, X), D(), D(a=X), D(a=X, b=X)]
+ALTS_DEEP = ALTS_QUICK + [L(L(X)), L(D(a=X)), D(a=L(X)), D(a=D(b=X)), S("ab\ncX\n")]
+
+
+def build(E, name, desc, leafkind="scalar"):
+    k = desc[0]
+    if k == "X":
+        return leaf(E, name, leafkind)
+    if k == "S":
+        return desc[1]
+    if k == "L":
+        return [build(E, "%s.%d" % (name, i), d, leafkind) for i, d in enumerate(desc[1])]
+    return {key: build(E, "%s.%s" % (name, key), d, leafkind) for key, d in desc[1].items()}
+
+
+def pick(E, name, alts, leafkind="scalar"):
+    return build(E, name, alts[E.choice(name + "?", len(alts))], leafkind)
+
+
+def pick_list(E, name, alts, maxlen, leafkind="scalar", n=None):
+    if n is None:
+        n = E.choice(name + "#", maxlen + 1)
+    return [pick(E, "%s.%d" % (name, i), alts, leafkind) for i in range(n)]
+
+
+def pick_dict(E, name, alts, keys, leafkind="scalar"):
+    out = {}
+    for k in keys:
+        c = E.choice("%s.%s?" % (name, k), len(alts) + 1)
+        if c:
+            out[k] = build(E, "%s.%s" % (name, k), alts[c - 1], leafkind)
+    return out
+
+ALTS_X = [X]
+ALTS_MERGE = [X, L(X), L(X, X), D(a=X), S("ab\ncd\n"), S("ab\ncX\n")]
+ALTS_MERGE_S = [X, L(X), D(a=X)]
